@@ -2573,6 +2573,11 @@ class Interp:
                 if k == i:
                     return v
         ty = 'str' if type_of(o) == 'str' else 'unknown'
+        if isinstance(o, DictV) and o.items and all(isinstance(v, Sym) for _, v in o.items):
+            ty = 'num'        # a table of numbers: whatever the key, the entry is a number
+        elif isinstance(o, DictV) and o.items and all(
+                isinstance(v, Str) or type_of(v) == 'str' for _, v in o.items):
+            ty = 'str'
         return Opaque('item', (o, i), ty)
 
     # ---- calls
@@ -3717,6 +3722,13 @@ class Interp:
                 return [(Str.lit(getattr(obj.text(), name)()), st)]
             if isinstance(obj, Opaque) and obj.label == 'm:' + name:
                 return [(obj, st)]  # idempotent
+            if name in ('strip', 'lstrip', 'rstrip') and isinstance(obj, Opaque) and \
+                    len(obj.args) == 1 and obj.label in ('m:strip', 'm:lstrip', 'm:rstrip'):
+                # whitespace trimming composes: either side of a strip()ped text is trimmed
+                # already, and trimming the other side of an lstrip()/rstrip() completes it
+                if obj.label == 'm:strip':
+                    return [(obj, st)]
+                return [(Opaque('m:strip', obj.args, 'str'), st)]
             return [(Opaque('m:' + name, (obj,), 'str'), st)]
         if name == 'encode':
             return [(Opaque('encode', (obj,), 'bytes'), st)]
